@@ -98,7 +98,7 @@ def machine_search(chk, c_exe, lean_exe, quick):
         return True
     # first entry / return
     n, problems, sample = ctxcorr.entry_check(c_exe, lean_exe)
-    claims = [p for p in problems if "claim" in p]
+    claims = [p for p in problems if "claim" in p or "failed rc" in p]
     if claims:
         chk.violation("first entry / return of a coroutine function does not meet C03 on the real code: %s" % claims[0],
                       "kind: entry\n# " + "\n# ".join(problems[:12]) + "\n", True)
@@ -127,6 +127,9 @@ def run(chk):
     c_exe = ctxcorr.build_harness(impl)
     lean_exe = vlib.lean_exe("ctxmain")
     evals, nontriv, validated = 0, set(), 0
+    # ---- the proof broke against the regenerated code: first look for a machine state that shows it ------------------
+    if not proved and tgen_ok and drivers_ok:
+        machine_search(chk, c_exe, lean_exe, quick)
     # ---- T-corr and probes -------------------------------------------------------------------------------------
     if drivers_ok and tgen_ok:
         # (i) frame image
@@ -137,10 +140,10 @@ def run(chk):
         if finfo.get("aligned_stores") == "false":
             chk.notes.append("cmi_coroutine_context_init writes the MXCSR image with a misaligned 8-byte store (C10, not C03: the "
                              "frame image is proved and observed to be the intended one; fixes/C10-mxcsr-store.patch)")
-        if problems:
+        if problems and not chk.violations:
             chk.violation("the initial frame written by cmi_coroutine_context_init is not the frame first_entry assumes: %s" % problems[0],
                           "kind: frame\n# " + "\n# ".join(problems[:10]) + "\n", True)
-        else:
+        elif not problems:
             validated += n
             for k in range(n):
                 nontriv.add("frame-%d" % k)
@@ -149,7 +152,7 @@ def run(chk):
         evals += n
         chk.cov["entries_observed"] = n
         if problems and not chk.violations:
-            claims = [p for p in problems if "claim" in p]
+            claims = [p for p in problems if "claim" in p or "failed rc" in p]
             chk.violation("first entry / return: %s" % (claims or problems)[0], "kind: entry\n# " + "\n# ".join(problems[:12]) + "\n",
                           bool(claims))
         elif not problems:
@@ -243,13 +246,17 @@ def run(chk):
         if stats:
             chk.cov["samples"] = [{"profile": stats[0]["profile"], "coroutines": stats[0]["n"], "ops": stats[0]["ops"]},
                                   {"register_file": ctxcorr.rt_line(files[2])}, {"frame": finfo.get("sample", "")[:300]}]
-        reported = False
-        for lines, d in bad_total:
+        reported = bool(chk.violations)
+        for lines, d in ([] if reported else bad_total):
             msg = ctxcorr.monitor(lines, d["impl_out"])
             if msg:
                 small = ctxcorr.shrink(c_exe, lean_exe, lines,
                                        lambda c: ctxcorr.monitor(c, ctxcorr.run_c(c_exe, c)[1]) is not None)
-                msg2 = ctxcorr.monitor(small, ctxcorr.run_c(c_exe, small)[1]) or msg
+                rc_s, out_s, err_s = ctxcorr.run_c(c_exe, small)
+                msg2 = ctxcorr.monitor(small, out_s) or msg
+                fatal = [l.strip() for l in err_s.splitlines() if "Fatal" in l or "runtime error" in l or "ERROR" in l]
+                if fatal:
+                    msg2 += " [%s]" % fatal[0][:200]
                 chk.violation("the real coroutine API violates C03 on a script: %s" % msg2,
                               "kind: script\n" + "\n".join(small) + "\n# impl stderr: " + d["impl_err"][-600:].replace("\n", "\n# "), True)
                 reported = True
@@ -299,8 +306,6 @@ def run(chk):
             if not found:
                 chk.violation("T-gen broken: %s" % tgen_msg, "translator: tools/gen_ctxasm.py\n%s\ntheorems not re-checked: CimbaModel.Props.C03.*\n" % tgen_msg, False)
             return
-        if drivers_ok:
-            found = machine_search(chk, c_exe, lean_exe, quick)
         if not found:
             names, errs = failing_decls(chk)
             probs = "\n".join(getattr(chk, "audit_result", {}).get("problems", []))
